@@ -1085,3 +1085,14 @@ pub fn ref_decode(ty: &Ty, data: &[u8]) -> Result<(Val, usize), DecErr> {
     let v = d.dec(ty)?;
     Ok((v, d.pos))
 }
+
+/// several values written back to back into one stream (one string table)
+pub fn ref_encode_many(items: &[(Ty, Val)]) -> Result<Frag, EncErr> {
+    let mut forms = WriterForms;
+    let mut e = Enc::new(&mut forms);
+    let mut f = Frag::default();
+    for (ty, v) in items {
+        e.enc(ty, v, &mut f)?;
+    }
+    Ok(f)
+}
